@@ -355,5 +355,5 @@ func TestC16(t *testing.T) {
 			}
 		}
 	}
-	c16Decode.Run(s, hx.PerShard(hx.Pick(100000, 3000000)))
+	c16Decode.Run(s, hx.PerShard(hx.Pick(400000, 6000000)))
 }
